@@ -140,11 +140,15 @@ class Requestant(httping.Parsent):
             self.version = (1, 1)  # use HTTP/1.1 code for HTTP/1.x where x>=1
 
 
-        pathSplits = urlsplit(self.url)
+        try:
+            pathSplits = urlsplit(self.url)
+            port = pathSplits.port
+        except ValueError as ex:  # invalid ipv6 host or non numeric port
+            raise httping.InvalidURL("Invalid request url '{0}'. {1}".format(self.url, ex))
         self.path = unquote(pathSplits.path)  # unquote non query path portion here
         self.scheme = pathSplits.scheme
         self.hostname = pathSplits.hostname
-        self.port = pathSplits.port
+        self.port = port
         self.query = pathSplits.query  # WSGI spec leaves it quoted do not unquote
         self.fragment = pathSplits.fragment
 
